@@ -27,6 +27,10 @@ theorem brk_allWs_append {p : Str} (r : Str) (hp : AllWs p) (hr : Brk r) : Brk (
   cases p with
   | nil => simpa using hr
   | cons c p => exact brk_cons _ (hp c (List.mem_cons_self))
+theorem brk_allWs_ne_nil_append {p : Str} (r : Str) (hp : AllWs p) (hne : p ≠ []) : Brk (p ++ r) := by
+  cases p with
+  | nil => exact absurd rfl hne
+  | cons c p => exact brk_cons _ (hp c (List.mem_cons_self))
 theorem brk_of_allWs {p : Str} (hp : AllWs p) : Brk p := by
   have := brk_allWs_append [] hp brk_nil; simpa using this
 
